@@ -92,7 +92,7 @@ theorem ctx_on_produced (h : HCfg) (d : Delivery) :
     `ctx_values` was false for that code.  Same input as in corpus/C08 and the harness's stale cases. -/
 theorem Old.stale_context_shows_through :
     let h : HCfg := ⟨"b", 1, "in", "S", none, "", "message.disabledPublisher", 0, true⟩
-    let d : Delivery := ⟨1, "in", 1, .outs [], [(.publishTopic, "upstream-topic")]⟩
+    let d : Delivery := ⟨1, "in", 1, .outs [], [(.publishTopic, "upstream-topic")], .live⟩
     h.pubTopic = "" ∧ (Old.inCtx h d).pubTopic = "upstream-topic" ∧ Old.inCtx h d ≠ own h ∧
       (handleOne h d).inCtx = own h := by
   decide
@@ -133,6 +133,21 @@ theorem publishes_only_own (h : HCfg) (d : Delivery) :
       | none => simp
       | some p => simp [Function.comp_def]
 
+/-- **a done context changes nothing**: whether the consumed message's context is live, already cancelled, cancelled
+    during the call or past its deadline, a function that returns the same thing gets the same treatment – outputs
+    handed to the publisher as returned, message acked (C08 never lets the router drop returned messages) -/
+theorem done_context_irrelevant (h : HCfg) (d : Delivery) (m : CtxDone) :
+    handleOne h { d with done := m } = handleOne h d := rfl
+
+/-- in particular: function returned outputs without error, handler has a publisher ⇒ published and acked, for every
+    state of the message's context -/
+theorem returned_outputs_published (h : HCfg) (d : Delivery) (p : Nat) (r : Ref) (rs : List Ref)
+    (hp : h.pub = some p) (ho : produced h d.shape = some (r :: rs)) :
+    (handleOne h d).settle = .ack ∧
+    (handleOne h d).calls.map (fun c => (c.pub, c.topic, c.items.map (·.1))) = [(p, h.pubTopic, r :: rs)] := by
+  unfold handleOne
+  simp [ho, hp, Function.comp_def]
+
 /-- something is published exactly when the handler has a publisher and the chain returned at least one message -/
 theorem published_iff (h : HCfg) (d : Delivery) :
     (handleOne h d).calls ≠ [] ↔ ∃ p r rs, h.pub = some p ∧ produced h d.shape = some (r :: rs) := by
@@ -152,9 +167,9 @@ theorem nopub_middleware_outputs_nack (h : HCfg) (d : Delivery) (hp : h.pub = no
   unfold handleOne
   simp [ho, hp]
 
-example : (handleOne ⟨"np", 1, "in", "S", none, "", "message.disabledPublisher", 2, true⟩ ⟨1, "in", 7, .outs [.fresh 0], []⟩)
+example : (handleOne ⟨"np", 1, "in", "S", none, "", "message.disabledPublisher", 2, true⟩ ⟨1, "in", 7, .outs [.fresh 0], [], .live⟩)
     = ⟨7, "np", ⟨"np", "message.disabledPublisher", "S", "in", ""⟩, .nack, []⟩ := by decide
-example : (handleOne ⟨"h", 1, "in", "S", some 3, "out", "P", 1, false⟩ ⟨1, "in", 7, .outs [.fresh 0, .consumed, .fresh 0], []⟩).calls
+example : (handleOne ⟨"h", 1, "in", "S", some 3, "out", "P", 1, false⟩ ⟨1, "in", 7, .outs [.fresh 0, .consumed, .fresh 0], [], .cancelledDuring⟩).calls
     = [⟨3, "out", [(.fresh 0, ⟨"h", "P", "S", "in", "out"⟩), (.consumed, ⟨"h", "P", "S", "in", "out"⟩),
                    (.fresh 0, ⟨"h", "P", "S", "in", "out"⟩), (.mw 0, ⟨"h", "P", "S", "in", "out"⟩)]⟩] := by decide
 
@@ -220,7 +235,7 @@ example :
     let a : HCfg := ⟨"a", 1, "t", "S", some 1, "oa", "P", 0, false⟩
     let b : HCfg := ⟨"b", 1, "t", "S", none, "", "message.disabledPublisher", 1, true⟩
     let c : HCfg := ⟨"c", 2, "t", "S2", some 1, "oc", "P", 0, false⟩
-    let script : List Delivery := [⟨1, "t", 1, .outs [.fresh 0], []⟩, ⟨2, "t", 2, .err, []⟩]
+    let script : List Delivery := [⟨1, "t", 1, .outs [.fresh 0], [], .deadlineOverrun⟩, ⟨2, "t", 2, .err, [], .live⟩]
     (resultsOf "b" (route [c, b, a] script)).map (fun r => (r.mid, r.fn, r.settle, r.calls.length)) = [(1, "b", .nack, 0)] ∧
     (resultsOf "a" (route [c, b, a] script)).map (fun r => (r.mid, r.fn, r.settle, r.calls.length)) = [(1, "a", .ack, 1)] ∧
     (resultsOf "c" (route [c, b, a] script)).map (fun r => (r.mid, r.fn, r.settle, r.calls.length)) = [(2, "c", .nack, 0)] := by
